@@ -73,6 +73,13 @@ func fieldCases() []fieldCase {
 		{Name: "no_leak_to_nested", Decls: "type PFXIs struct {\n\tName string\n\tTitle string\n}\ntype PFXIt struct {\n\tName string\n\tTitle string\n}\ntype PFXIn struct {\n\tName string\n\tTitle string\n\tIn PFXIs\n\tL []PFXIs\n}\ntype PFXOut struct {\n\tName string\n\tTitle string\n\tIn PFXIt\n\tL []PFXIt\n}\n", Src: "PFXIn", Tgt: "PFXOut",
 			Lines: []string{"map Name Title", "ignore Name"},
 			Pairs: map[string]*PairSpec{"PFXIn→PFXOut": {Fields: map[string]*FieldSpec{"Title": fs("Name"), "Name": {Ignore: true}}}}},
+		// the same with nested structs of unnamed types (converted inline by the same method), behind every container
+		{Name: "no_leak_to_nested_unnamed", Decls: "type PFXIn struct {\n\tName string\n\tTitle string\n\tIn struct {\n\t\tName string\n\t\tTitle string\n\t}\n\tL []struct {\n\t\tName string\n\t\tTitle string\n\t}\n\tP *struct {\n\t\tName string\n\t\tTitle string\n\t}\n\tM map[string]struct {\n\t\tName string\n\t\tTitle string\n\t}\n}\ntype PFXOut struct {\n\tName string\n\tTitle string\n\tIn struct {\n\t\tName string\n\t\tTitle string\n\t}\n\tL []struct {\n\t\tName string\n\t\tTitle string\n\t}\n\tP *struct {\n\t\tName string\n\t\tTitle string\n\t}\n\tM map[string]struct {\n\t\tName string\n\t\tTitle string\n\t}\n}\n", Src: "PFXIn", Tgt: "PFXOut",
+			Lines: []string{"map Name Title", "ignore Name"},
+			Pairs: map[string]*PairSpec{"PFXIn→PFXOut": {Fields: map[string]*FieldSpec{"Title": fs("Name"), "Name": {Ignore: true}}}}},
+		{Name: "no_leak_to_nested_unnamed_differing", Decls: "type PFXIn struct {\n\tKey string\n\tID string\n\tMeta struct {\n\t\tKey string\n\t\tID string\n\t\tN int\n\t}\n\tL []struct{ ID string }\n}\ntype PFXOut struct {\n\tID string\n\tMeta struct {\n\t\tID string\n\t\tN int\n\t}\n\tL []struct{ ID string }\n}\n", Src: "PFXIn", Tgt: "PFXOut",
+			Lines: []string{"map Key ID"},
+			Pairs: map[string]*PairSpec{"PFXIn→PFXOut": {Fields: map[string]*FieldSpec{"ID": fs("Key")}}}},
 		{Name: "callee_settings_kept", Decls: "type PFXIs struct {\n\tName string\n\tAge int\n}\ntype PFXIt struct {\n\tTitle string\n\tAge int\n\tExtra int\n}\ntype PFXIn struct {\n\tName string\n\tOne PFXIs\n\tP *PFXIs\n\tL []PFXIs\n\tM map[string]PFXIs\n}\ntype PFXOut struct {\n\tName string\n\tOne PFXIt\n\tP *PFXIt\n\tL []PFXIt\n\tM map[string]PFXIt\n}\n", Src: "PFXIn", Tgt: "PFXOut",
 			Extra: "\t// goverter:map Name Title\n\t// goverter:ignore Extra\n\tPFXInner(source PFXIs) PFXIt\n",
 			Pairs: map[string]*PairSpec{"PFXIs→PFXIt": {Fields: map[string]*FieldSpec{"Title": fs("Name"), "Extra": {Ignore: true}}}}},
